@@ -30,9 +30,8 @@ def single_source_obligations(ctx):
                           "StoreBasedCollection.%s no longer returns the store's ctag: the three collection tags can disagree" % nm))
     for pq, getter in (("xandikos.webdav.GetCTagProperty", "get_ctag"), ("xandikos.sync.SyncTokenProperty", "get_sync_token")):
         pc = ctx.P.cls(pq)
-        gv = pc.methods.get("get_value")
-        ok = gv is not None and any(isinstance(n, ast.Assign) and dotted(n.targets[0]) == "el.text" and isinstance(n.value, ast.Call)
-                                    and dotted(n.value.func) == "resource." + getter for n in walk_local(gv.node))
+        from .common import serves_resource_call
+        _gv, ok = serves_resource_call(ctx, pq, getter)
         obs.append(ctx.ob(ok, pq, "%s:%d" % (pc.module.rel, pc.node.lineno), "%s serves resource.%s()" % (pc.name, getter), "el.text = resource.%s()" % getter,
                           "%s no longer serves resource.%s()" % (pc.name, getter)))
     for pq in ("xandikos.webdav.DAVGetCTagProperty", "xandikos.webdav.AppleGetCTagProperty"):
